@@ -123,6 +123,15 @@ Theorem C01_simulation_step : forall s t o, Rsim s t -> pvalid t -> wf_op_sim s 
 Proof. intros s t o R Hv Hwf. exact (sim_step s t o R (wf_op_sim_sim s t o R Hv Hwf)). Qed.
 Print Assumptions C01_simulation_step.
 
+(* 6. Spellings.  Every call depends on its path arguments only through normalizePath: two calls
+      whose paths normalize to the same strings do the same thing in every state (same new state
+      including handles and clock, same result).  Together with filepath.Clean's properties (the
+      subject of Proofs/PathProof.v, not of this file) this is "paths that clean to the same string
+      denote the same file". *)
+Theorem C01_spelling_irrelevant : forall s o o', same_names o o' -> m_step s o = m_step s o'.
+Proof. exact same_names_same_step. Qed.
+Print Assumptions C01_spelling_irrelevant.
+
 (* ---------- non-vacuity ---------- *)
 Local Open Scope N_scope.
 Definition c01_demo : list op :=
@@ -187,4 +196,8 @@ Example C01_ex_sim : wf_seq_sim m_init c01_demo = true /\ wf_seq_sim m_init c01_
   snd (p_run p_init c01_demo3) =
   [ PSucc; PHandle 0; PHandle 1; PSucc; PHandle 2; PNames [[97];[98]] false; PNames [[99]] false; PNames [] true;
     PHandle 3; PNames [[97];[98];[99]] false ].
+Proof. vm_compute. auto. Qed.
+
+Example C01_ex_spelling : same_names (Mkdir [47;47;120;47] 448%Z) (Mkdir [47;120] 448%Z) /\
+  same_names (Rename [47;97;47;46;47;98] [47;120;47;46;46;47;121]) (Rename [47;97;47;98] [47;121]).
 Proof. vm_compute. auto. Qed.
